@@ -193,6 +193,8 @@ func init() {
 							sp.Depth = 5
 						}
 						sp.Ops = generalSketchOps(m, k, exact)
+						// zero-weight additions beyond the current extremes: nothing is absorbed
+						sp.Ops = append(sp.Ops, skAddIgnored(0, 1e3, 0), skAddIgnored(0, -1e3, 0))
 						specs = append(specs, sp)
 					}
 				}
